@@ -92,6 +92,29 @@ func c04Keys(c *fw.Case, n int) {
 				c.Failf("reveal-equals-commitment", w, "reveal value equals commitment")
 			}
 			// perturb every member
+			// a key differing only in the case of one letter of x is a different key
+			{
+				p := map[string]interface{}{}
+				for kk, vv := range j {
+					p[kk] = vv
+				}
+				xs, _ := p["x"].(string)
+				for bi := 0; bi < len(xs); bi++ {
+					ch := xs[bi]
+					if (ch >= 'a' && ch <= 'z') || (ch >= 'A' && ch <= 'Z') {
+						p["x"] = xs[:bi] + string(ch^0x20) + xs[bi+1:]
+						break
+					}
+				}
+				if p["x"] != j["x"] {
+					c.Count("perturbations", 1)
+					c.Evals(1)
+					c.Sig("perturb", typ, "x-letter-case", nonce)
+					if pc, err := commitment.GetCommitment(toLibJWK(p), uint(code)); err == nil && pc == gotC {
+						c.Failf("commitment-collision", map[string]interface{}{"jwk": j, "perturbed": p, "member": "x (letter case)"}, "keys differing in the case of one letter of x have the same commitment")
+					}
+				}
+			}
 			for _, member := range []string{"x", "y", "crv", "kty", "nonce"} {
 				p := map[string]interface{}{}
 				for kk, vv := range j {
